@@ -5,6 +5,15 @@ HERE = os.path.dirname(os.path.abspath(__file__))
 BASELINE = "cd /repo && /venv/bin/python -m pytest -ra -q -p no:cacheprovider --timeout=900 --continue-on-collection-errors"
 
 CLAIMED = {
+    'C19': dict(
+        design='4.19',
+        text='Kernel of expression_v2. BOUNDED (<= 4 indices per term, <= 2 incoming summed indices; index characters and axis lengths symbolic; labelled bounded): _Parser._trace keeps exactly '
+             'the indices that occur once, in order, traces each pair once, adds exactly the paired indices to the summed set, and raises ExpressionSyntaxError exactly when an index is used more than twice '
+             'or paired axes differ in length; _merge_summed_indices_same_term is a disjoint union that raises exactly on overlap. Unbounded proofs with loop invariants (any string): '
+             '_Substring.trim_start/trim_end return the maximal range without leading/trailing spaces, _Substring.__getitem__ follows Python slicing, all preserve 0 <= start <= stop <= len(base).',
+        note='That the produced array MEANS the index-notation reading (array backend), precedence, function calls, gradients, jump/mean, bracket-level scanning (_find/split) and expression_v1 are outside. '
+             'Trusted: small symbolic set/str domain, array.trace uninterpreted.',
+        technique='contract-based verification: ast->z3 with loop invariants for the scanners; bounded unrolling with symbolic indices for _trace'),
     'C10': dict(
         design='4.10',
         text='Very narrow kernel: structured-axis arithmetic of transformseq for all integer axes [i,j) incl. periodic ones: the two interface axes of a DimAxis have equal length and pair each '
@@ -140,7 +149,7 @@ NOT_APPLICABLE = {
     'C02': 'whole-DAG faithful translation into generated numpy programs: no function-level postcondition carries it; would need a denotational semantics of ~150 node classes and of the generated code (DESIGN 4.2)',
     'C03': 'history/non-interference property of a program that exists only as a generated string; no per-function contract expresses it (DESIGN 4.3)',
 }
-PENDING = ['C16', 'C18', 'C19']
+PENDING = ['C16', 'C18']
 
 
 def main():
